@@ -679,6 +679,29 @@ def stage_gw(ctx, profiles, stall_props=("C13", "C15", "C19"), monitor_props=Non
         mine = [v for v in viols if v["prop"] == ctx.pid]
         rep["known_replays"][f["id"]] = "reproduces (%d monitor violations of this property)" % len(mine) if mine else "no violation of this property in its replay"
         ctx.evaluations += 1
+    # regression corpus: the histories of repaired defects (known_findings.json "fixed" entries suppress nothing) and
+    # minimized failures kept from development run first; every monitor of this property is evaluated on them
+    cdir = os.path.join(ctx.work, "corpus")
+    os.makedirs(cdir, exist_ok=True)
+    corpus = sorted(glob.glob(os.path.join(ROOT, "replays", "fixed", "*.history.json")) + glob.glob(os.path.join(ROOT, "corpus", "*.history.json")))
+    for hp in corpus:
+        d = os.path.join(cdir, os.path.basename(hp)[:-len(".history.json")])
+        rc, out = sh([os.path.join(BUILD, "gwrun"), "-replay", hp, "-out", d], timeout=600)
+        if rc != 0:
+            m = re.search(r"(panic:|fatal error:)[^\n]*", out)
+            if ctx.pid in ("C15", "C20"):
+                ctx.add_violation("replay of corpus history %s crashed the gateway: %s" % (os.path.basename(hp), m.group(0) if m else out[:400]),
+                                  {"kind": "crash", "history": hp, "log": out[:5000]})
+            continue
+        tp = os.path.join(d, "replay.trace")
+        if os.path.exists(tp):
+            os.rename(tp, os.path.join(cdir, os.path.basename(hp)[:-len(".history.json")] + ".trace"))
+            subprocess.run(["cp", hp, os.path.join(cdir, os.path.basename(hp))])
+    if corpus:
+        viols, stats, stalls = run_traces(ctx, cdir)
+        triage_gw(ctx, viols, stalls, stall_props, monitor_props)
+        ctx.evaluations += len(stats)
+        rep["corpus"] = {"histories": len(stats), "violations_this_property": sum(1 for v in viols if v["prop"] in (monitor_props or (ctx.pid,)))}
     for name, nq, nt in profiles:
         n = ctx.q(nq, nt)
         if n <= 0:
